@@ -199,7 +199,8 @@ def write_ev(prop, tier, seed, ctx, mod, new, kn, resolved, wall, extra=None):
         c = per_rule_seen.get(o["rule"], 0)
         if c < 2:
             per_rule_seen[o["rule"]] = c + 1
-            samples.append({k: o[k] for k in ("rule", "instance", "status", "what", "where")})
+            samples.append({"rule": o["rule"], "instance": o["instance"], "status": o["status"], "where": o["where"],
+                            ("finding" if o["status"] != "ok" else "a_violation_would_mean"): o["what"]})
     ev = {
         "property_id": prop,
         "tier": tier,
